@@ -1074,6 +1074,7 @@ func typedAtoms() []*Term {
 			}
 		}
 	}
+	out = append(out, lvl(tInvolved("pod", "a", "x"), 2)) // differs from InvolvedFilter(Pod,a,x) in the case of the kind only
 	out = append(out, lvl(tSelMatch(nil), 2))
 	for _, m := range labelMapsE([]string{"1", "2"}) {
 		l := 3
